@@ -447,3 +447,61 @@ PROPS["C14"] = dict(
           "emulation-only) and is freed, error array released with orc_parse_error_freev, no sanitizer report."),
     assumptions=["inputs contain no NUL byte", "programs returned together with error records are still compiled and freed (they must be safe, not meaningful)"],
 )
+
+
+# generator exclusions that mirror C01's known findings (they make native code read out of bounds or compute garbage,
+# which is C01's finding and must not be re-reported by the properties that reuse the native runner)
+NATIVE_EXCLUDES = ["special-load-shared-source", "acc-nonarray-source", "mmx-64bit-special-load"]
+
+PROPS["C10"] = dict(
+    excludes=NATIVE_EXCLUDES,
+    variant="plain",
+    sources=ENGINE + ["props/c01_native.c"],
+    cflags=["-DC10_MODE"],
+    level="exploration",
+    technique="generated programs called through an assembly trampoline that seeds and checks machine state (state-invariant oracle)",
+    level_text=("every single-opcode program form (integer and float) and rapidcheck-generated multi-instruction programs, on avx/sse/mmx "
+                "with flag variants (frame pointer, short jumps, reduced feature sets), are called through engine/tramp.S with generated "
+                "values in rbx/rbp/r12-r15, generated MXCSR (rounding modes, FTZ, DAZ, masks) and x87 control words, poisoned vector "
+                "registers, stack canaries above the return address and an executor placed flush against an inaccessible page"),
+    level_note=("trusted base: engine/tramp.S; x86-64 SysV only (no Windows ABI, no 32-bit execution); MXCSR status flags (bits 0-5) "
+                "are not part of the judged state"),
+    stages=[
+        dict(name="enum-single-opcode", mode="enum", quick=dict(budget=40), thorough=dict(budget=600)),
+        dict(name="rc-programs", mode="rc", quick=dict(cases=120000, max_size=500, budget=40), thorough=dict(cases=3000000, max_size=600, budget=600)),
+    ],
+    rule=("case = (program, target, flags, 4..18 calls with generated n, m, alignments and entry state). Non-trivial = compiled successfully "
+          "and called with n*m > 0; classes count programs whose listing saves callee-saved registers, sets MXCSR or uses MMX registers. "
+          "Oracle after every call: rbx, rbp, r12-r15 and rsp unchanged; 128 bytes of caller stack above the return address unchanged; "
+          "MXCSR control bits and x87 control word unchanged; x87 tag word all-empty; DF clear; bytes before the executor and every "
+          "array byte outside the destination elements unchanged."),
+    assumptions=["x86-64 System V calling convention", "dirty upper halves of ymm registers are not an ABI matter"],
+)
+
+
+PROPS["C03"] = dict(
+    excludes=NATIVE_EXCLUDES,
+    variant="plain",
+    sources=ENGINE + ["props/c01_native.c"],
+    cflags=["-DC03_MODE"],
+    level="exploration",
+    technique="generated programs run on guard-page arenas (PROT_NONE neighbours, read-only sources, canaried gaps) against an entitlement model",
+    level_text=("all single-opcode program forms and rapidcheck-generated integer programs (incl. offset, upsampling and resampling loads) "
+                "are executed natively on avx/sse/mmx and through emulation with every array placed so that its entitled elements end "
+                "flush against (or start right after) an inaccessible page, rows either separated by unmapped pages or by canaried gaps, "
+                "sources mapped read-only; n dense in 0..100, m in 0..4. A fault is attributed to the array and its distance from the "
+                "entitled range. Exploration: only generated programs/shapes are covered"),
+    level_note=("trusted base: the entitlement model in engine/prog.c (elements 0..n-1; i+offset for loadoff*; i>>1 and (i>>1)+1 for "
+                "loadup*; (b+c*i)>>16 and its successor for ldres*, the successor always granted), mmap/mprotect; stray accesses that stay "
+                "inside another array's own mapping are invisible (each array has a private mapping, so this needs an error > 4 KiB)"),
+    stages=[
+        dict(name="enum-single-opcode", mode="enum", quick=dict(budget=50), thorough=dict(budget=700)),
+        dict(name="rc-programs", mode="rc", quick=dict(cases=100000, max_size=500, budget=45), thorough=dict(cases=3000000, max_size=600, budget=600)),
+    ],
+    rule=("case = (program, target, flags, 4..18 run configurations with placement in {trailing guard, leading guard} x {unmapped row gaps, "
+          "canaried gaps}). Non-trivial = compiled successfully and run with n*m > 0 (then at least one array access ends exactly at a "
+          "guard boundary by construction). Oracle: no SIGSEGV/SIGBUS in native code or emulation; every byte outside destination "
+          "elements 0..n-1 of each row unchanged (sources entirely); native result equals emulation on the same arena."),
+    assumptions=["pointers aligned to the declared alignment; the leading-guard placement forces page-aligned starts, alignment variety comes from the trailing-guard placement",
+                 "the generated-C path is exercised on guarded arenas by C04's runner, not here"],
+)
